@@ -173,8 +173,8 @@ End Tops.
 Definition build_fuel (secs : list gsection) : nat :=
   S (S (fold_right (fun s a => Nat.max (fold_right (fun x b => Nat.max (depth x) b) O (snd s)) a) O secs)).
 
-Lemma build_eq : forall schema decodes tops secs,
-    build schema decodes tops secs =
+Lemma build_eq : forall schema decodes tops gsid secs,
+    build schema decodes tops gsid secs =
     if existsb (fun t => t_required t && match lookup_last secs (t_name t) None with None => true | Some _ => false end) tops
     then BErr EMissingSection
     else
@@ -184,6 +184,7 @@ Lemma build_eq : forall schema decodes tops secs,
           if existsb (fun s => negb (str_eqb (fst s) include_name) &&
                                negb (existsb (fun t => str_eqb (t_name t) (fst s)) tops)) secs
           then BErr EUnknownSection
+          else if bootstrap_bad schema decodes gsid secs then BErr EBadResolver
           else match lookup_last secs routing_name None with
                | Some items => match last_fallback_funcs items None with
                                | Some 1%nat | None => BOk
@@ -194,14 +195,14 @@ Lemma build_eq : forall schema decodes tops secs,
       end.
 Proof. reflexivity. Qed.
 
-Lemma build_contract : forall schema decodes tops secs,
-  build schema decodes tops secs = BOk ->
+Lemma build_contract : forall schema decodes tops gsid secs,
+  build schema decodes tops gsid secs = BOk ->
   (forall t, In t tops -> t_required t = true -> exists items, lookup_last secs (t_name t) None = Some items) /\
   (forall s, In s secs -> str_eqb (fst s) include_name = true \/ exists t, In t tops /\ str_eqb (t_name t) (fst s) = true) /\
   (forall t items, In t tops -> lookup_last secs (t_name t) None = Some items ->
      exists fuel, section_error schema decodes fuel (t_kind t) items = None).
 Proof.
-  intros schema decodes tops secs H. rewrite build_eq in H.
+  intros schema decodes tops gsid secs H. rewrite build_eq in H.
   destruct (existsb _ tops) eqn:E1; [discriminate|].
   destruct (tops_go schema decodes secs (build_fuel secs) tops) eqn:E2; [discriminate|].
   match type of H with (if ?b then _ else _) = _ => destruct b eqn:E3 end; [discriminate|]. clear H.
@@ -256,3 +257,49 @@ Proof.
   intros schema sid st f items p Hs Hf. unfold effective_string. rewrite Hs, Hf.
   apply last_value_last.
 Qed.
+
+(* ================================================================== the patches of section 'global' *)
+Lemma bootstrap_bad_spec : forall schema decodes gsid secs,
+    bootstrap_bad schema decodes gsid secs = false ->
+    bootstrap_value schema gsid secs = [] \/ decodes ty_addrport (bootstrap_value schema gsid secs) = true.
+Proof.
+  intros schema decodes gsid secs H. unfold bootstrap_bad in H.
+  destruct (bootstrap_value schema gsid secs) as [|c r]; [left; reflexivity|].
+  right. destruct (decodes ty_addrport (c :: r)); [reflexivity | discriminate].
+Qed.
+
+Lemma build_ok_bootstrap : forall schema decodes tops gsid secs,
+    build schema decodes tops gsid secs = BOk -> bootstrap_bad schema decodes gsid secs = false.
+Proof.
+  intros schema decodes tops gsid secs H. rewrite build_eq in H.
+  destruct (existsb _ tops); [discriminate|].
+  destruct (tops_go schema decodes secs (build_fuel secs) tops); [discriminate|].
+  match type of H with (if ?b then _ else _) = _ => destruct b end; [discriminate|].
+  destruct (bootstrap_bad schema decodes gsid secs); [discriminate | reflexivity].
+Qed.
+
+Lemma bootstrap_patch : forall schema decodes tops gsid secs,
+  build schema decodes tops gsid secs = BOk ->
+  bootstrap_value schema gsid secs = [] \/ decodes ty_addrport (bootstrap_value schema gsid secs) = true.
+Proof.
+  intros schema decodes tops gsid secs H. apply bootstrap_bad_spec.
+  apply (build_ok_bootstrap _ _ _ _ _ H).
+Qed.
+
+Lemma bootstrap_bad_rejected : forall schema decodes tops gsid secs,
+  bootstrap_value schema gsid secs <> [] -> decodes ty_addrport (bootstrap_value schema gsid secs) = false ->
+  build schema decodes tops gsid secs <> BOk.
+Proof.
+  intros schema decodes tops gsid secs Hne Hd H.
+  destruct (bootstrap_patch _ _ _ _ _ H) as [E|E]; [exact (Hne E) | congruence].
+Qed.
+
+Lemma http_method_kept : forall schema decodes gsid secs,
+  decodes ty_http_method (global_string schema gsid secs http_method_name) = true ->
+  effective_http_method schema decodes gsid secs = global_string schema gsid secs http_method_name.
+Proof. intros schema decodes gsid secs H. unfold effective_http_method. cbv zeta. rewrite H. reflexivity. Qed.
+
+Lemma http_method_fallback : forall schema decodes gsid secs,
+  decodes ty_http_method (global_string schema gsid secs http_method_name) = false ->
+  effective_http_method schema decodes gsid secs = connect_method.
+Proof. intros schema decodes gsid secs H. unfold effective_http_method. cbv zeta. rewrite H. reflexivity. Qed.
